@@ -293,6 +293,8 @@ def check(case):
     # number of converged N-1 cases (non-triviality rule): own N-1 loop
     n_conv = len(brute(tasks))
     res.label("cases-converged:%s" % ("0" if n_conv == 0 else "1" if n_conv == 1 else "2+"))
+    if any(r["status"] == "failed" for r in bf_cache["bf"].values()):
+        res.label("some-case-not-converged")
     res.label("tasks:%s" % ("0-1" if len(tasks) <= 1 else "2-3" if len(tasks) <= 3 else "4+"))
     for k in sorted({c[0] for c in tasks}):
         res.label("case-type:" + k)
